@@ -136,6 +136,7 @@ Theorem C01_source_tie :
         strided kept 1 n (List.length kept) 0 = filter_idx (py_slice_sel (gen_plus_slice (Z.of_nat n)) (List.length kept)) kept 0)
   /\ gen_plus_symbol = 43%Z
   /\ (forall j n : nat, Z.of_nat (m_plus_line j n) = gen_plus_line (Z.of_nat j) (Z.of_nat n))
+  /\ (forall p h : nat, m_plus_wins p h = gen_plus_wins (Z.of_nat p) (Z.of_nat h))
   /\ (forall last_nl : Z, m_size_after last_nl = Z.to_nat (gen_delim_size last_nl))
   /\ (forall i before : nat, Z.of_nat (before + i) = gen_parse_error_line (Z.of_nat i) (Z.of_nat before)).
 Proof.
@@ -144,7 +145,7 @@ Proof.
     | exact b_terminator_order | exact b_seek_offset | exact b_prepend_slice | exact b_tail_rule | exact b_eof_give_up
     | exact b_lines_after | exact b_reported_line | exact b_oneline_incomplete | exact b_oneline_kept
     | exact b_header_slice | exact b_header_line | exact b_first_record_line | exact b_plus_slice | exact b_plus_symbol
-    | exact b_plus_line | exact b_delim_size | exact b_parse_error_line ].
+    | exact b_plus_line | exact b_plus_wins | exact b_delim_size | exact b_parse_error_line ].
 Qed.
 Print Assumptions C01_source_tie.
 
